@@ -159,6 +159,62 @@ static int item_consistent(int k, int res) {
 			IMPLIES(it->parsed && it->has_error, !it->resp.handled && !it->resp.delivered && !it->conf.delivered && !it->conf.cb_calls);
 }
 
+#ifdef H_server_config
+/* =================================================================================================================
+ * C13.async_server_config: ONE call of asyncClient_handleServerConfig with the configuration of an AUTHENTIC pdu (what
+ * processResponseQueue hands over: C06.async_queue_*), exact case analysis. */
+void harness(void) {
+	int res; KSI_Config *config; KSI_Config_Callback cb; KSI_AsyncClient *c; KSI_AsyncHandle *nc; size_t invoke;
+	if (!mk_client()) return;
+	g_ad_it0.handed_out = 1; g_ad_it0.parsed = 1; g_ad_it0.parse_calls = 1; g_ad_it0.has_header = 1; g_ad_it0.has_hmac = 1; g_ad_it0.has_conf = 1;
+	g_ad_it0.pdu.k = 0; g_ad_it0.pdu.had_header = 1; g_ad_it0.pdu.had_hmac = 1; g_ad_it0.pdu.had_error = 0; g_ad_it0.pdu.verify_calls = 1; g_ad_it0.pdu.verify_res = KSI_OK;
+	g_ad_it0.pdu.verified = 1; g_ad_it0.pdu.verify_key = g_ad_key; g_ad_it0.pdu.confResponse = &g_ad_it0.conf; g_ad_it0.conf.k = 0; g_ad_it0.conf.pdu = &g_ad_it0.pdu; g_ad_it0.conf.refs = 1;
+	config = nondet_bool() ? &g_ad_it0.conf : NULL; c = nondet_bool() ? &g_c : NULL; cb = nondet_bool() ? ad_cb_ctx : NULL;
+	__CPROVER_assume(ainv_inv(&g_c));
+	__CPROVER_assume(hinv(&g_h1) && hinv(&g_h2) && confinv(g_c.serverConf));
+	snapshot();
+	invoke = c0.options[KSI_ASYNC_PRIVOPT_INVOKE_CONF_RECEIVED_CALLBACK];
+
+	res = asyncClient_handleServerConfig(c, config, cb);
+
+	nc = g_c.serverConf;
+	__CPROVER_assert(ainv_inv(&g_c) && confinv(nc), "serverConfig: Inv(c) and ConfInv are preserved (every path)");
+	__CPROVER_assert(slot_same(1) && slot_same(2) && same_handle(&g_h1, &h01) && same_handle(&g_h2, &h02), "serverConfig: no slot and no request handle is touched");
+	__CPROVER_assert(IMPLIES(c == NULL || config == NULL, res == KSI_INVALID_ARGUMENT && nc == c0.serverConf && same_handle(&g_conf, &conf0) && g_c.pending == c0.pending && g_c.received == c0.received &&
+			g_ad_it0.conf.refs == 1 && !g_ad.cb_ctx && g_ad.oldconf_free == 0), "serverConfig: NULL arguments refused, nothing changes");
+	if (c != NULL && config != NULL) {
+		if (c0.serverConf != NULL) {
+			int first = conf_has_req(&conf0) && conf0.respCtx == NULL;
+			__CPROVER_assert(res == KSI_OK && nc == &g_conf && g_conf.state == KSI_ASYNC_STATE_PUSH_CONFIG_RECEIVED && g_conf.respCtx == (void *)config &&
+					g_conf.respCtx_free == (void (*)(void *))KSI_Config_free && g_ad_it0.conf.refs == 2 && g_ad_it0.conf.delivered == 1 && !g_ad.cb_ctx,
+					"serverConfig: a cached configuration handle receives the configuration (one more reference), state PUSH_CONFIG_RECEIVED, no call-back");
+			__CPROVER_assert(g_conf.id == conf0.id && g_conf.ref == conf0.ref && g_conf.aggrReq == conf0.aggrReq && g_conf.extReq == conf0.extReq && g_conf.err == conf0.err && g_conf.errMsg == conf0.errMsg && g_conf.raw == conf0.raw,
+					"serverConfig: nothing else of the handle changes");
+			__CPROVER_assert(g_ad.oldconf_free == (conf0.respCtx != NULL ? 1 : 0), "serverConfig: the configuration held before is released exactly once");
+			__CPROVER_assert(first ? (g_c.pending == c0.pending - 1 && g_c.received == c0.received + 1) : (g_c.pending == c0.pending && g_c.received == c0.received),
+					"serverConfig: the counters move (pending-1, received+1) exactly when the user's configuration request gets its FIRST configuration");
+			if (first) REACH("requested configuration arrives");
+			if (!conf_has_req(&conf0)) REACH("pushed configuration renewed");
+		} else if (cb != NULL && invoke != 0) {
+			__CPROVER_assert(g_ad.cb_ctx && g_ad_it0.conf.cb_calls == 1 && res == g_ad.cb_res && nc == NULL && g_c.pending == c0.pending && g_c.received == c0.received && g_ad_it0.conf.refs == 1 && g_ad_it0.conf.delivered == 0,
+					"serverConfig: unrequested configuration with call-back enabled: the call-back gets it exactly once, its status is returned, no handle is made, counters unchanged");
+			REACH("call-back");
+		} else {
+			__CPROVER_assert(res == KSI_OK || (res == KSI_OUT_OF_MEMORY && nc == NULL && g_c.pending == c0.pending && g_c.received == c0.received && g_ad_it0.conf.refs == 1), "serverConfig: allocation failure => error, nothing changes");
+			__CPROVER_assert(IMPLIES(res == KSI_OK, nc != NULL && nc != &g_conf && nc->ref == 1 && nc->state == KSI_ASYNC_STATE_PUSH_CONFIG_RECEIVED && nc->respCtx == (void *)config &&
+					nc->respCtx_free == (void (*)(void *))KSI_Config_free && nc->aggrReq == NULL && nc->extReq == NULL && nc->id == 0 && nc->err == KSI_OK && nc->errMsg == NULL && nc->raw == NULL && nc->ctx == &g_ctx &&
+					g_c.received == c0.received + 1 && g_c.pending == c0.pending && g_ad_it0.conf.refs == 2 && !g_ad.cb_ctx),
+					"serverConfig: unrequested configuration without call-back: a fresh request-less handle holds it, received+1");
+			if (res == KSI_OK) REACH("handle made for a pushed configuration");
+			if (res == KSI_OK && cb != NULL) REACH("call-back present but switched off");
+#ifdef AD_OOM
+			if (res == KSI_OUT_OF_MEMORY) REACH("allocation of the configuration handle failed");
+#endif
+		}
+	}
+	REACH("returns");
+}
+#else
 void harness(void) {
 	int res; KSI_AsyncHandle *nc;
 	__CPROVER_assert(KSI_ASYNC_CACHE_START_POS == 1, "cache geometry");
@@ -174,6 +230,7 @@ void harness(void) {
 			"queue: every item is parsed from the transport's bytes with the client's context, verified at most once under the client's key; content is used only if AUTHENTIC; OK return => every item was an error PDU or AUTHENTIC");
 	__CPROVER_assert(IMPLIES(res != KSI_OK, res == g_ad.first_fail || (res == KSI_OUT_OF_MEMORY && g_ad.first_fail == KSI_OK)), "queue: an error return carries the status of the first failing step");
 	__CPROVER_assert(IMPLIES(res == KSI_OK, g_ad.first_fail == KSI_OK), "queue: transport failure, malformed or unauthenticated input, failing call-back => error return");
+	__CPROVER_assert(IMPLIES(res == KSI_OK, g_ad.get_calls >= 1 && g_ad.last_left == 0), "queue: OK return => the transport queue was drained (the last call reported nothing left)");
 	__CPROVER_assert(!g_ad.used_after_fail, "queue: nothing more is taken from the transport after a failure");
 	/* ---- every queued response is consumed exactly once and released ---- */
 	__CPROVER_assert(item_released(0) && item_released(1) && item_released(2),
@@ -204,13 +261,21 @@ void harness(void) {
 			"queue: a call-back runs only for an unrequested configuration, when enabled; the client's own call-back takes precedence over the context's");
 
 	REACH("returns");
+#if AD_MAXQ >= 3
 	if (res == KSI_OK && g_ad.n_out == 3 && g_ad_it2.resp.delivered) REACH("three byte strings, the third delivered");
 	if (res == KSI_OK && g_ad.get_calls == 3 && !g_ad_it0.handed_out && g_ad_it2.resp.delivered) REACH("nothing at the first call, a reply at the third");
+#endif
+#if AC_N >= 3 && AD_MAXQ >= 2
 	if (res == KSI_OK && g_ad_it0.resp.delivered && g_ad_it1.resp.delivered) REACH("two requests completed in one call");
+#endif
+#if AD_MAXQ >= 2
 	if (res == KSI_OK && g_ad.err_seen && cache01 != NULL && h01.state == KSI_ASYNC_STATE_WAITING_FOR_RESPONSE && g_h1.state == KSI_ASYNC_STATE_ERROR) REACH("error PDU fails a waiting request");
 	if (res == KSI_OK && g_ad.err_seen && g_ad.last_err == 0 && g_ad_it1.resp.delivered) REACH("error PDU first, a valid reply after it is still delivered");
+#endif
 	if (res != KSI_OK && g_ad_it0.pdu.verify_calls == 1 && g_ad_it0.pdu.verify_res != KSI_OK) REACH("MAC verification failed");
+#if AD_MAXQ >= 2
 	if (res != KSI_OK && g_ad_it1.parse_calls == 1 && !g_ad_it1.parsed && g_ad_it0.resp.delivered) REACH("second byte string malformed after a delivered first");
+#endif
 	if (res == KSI_OK && cache01 != NULL && g_h1.state == KSI_ASYNC_STATE_ERROR && h01.state == KSI_ASYNC_STATE_WAITING_FOR_RESPONSE && !g_ad.err_seen) REACH("non-zero status fails the request");
 	if (res == KSI_OK && g_ad.cb_ctx) REACH("pushed configuration given to the context call-back");
 	if (res == KSI_OK && g_ad.cb_client) REACH("pushed configuration given to the client call-back");
@@ -218,5 +283,8 @@ void harness(void) {
 	if (res == KSI_OK && c0.serverConf != NULL && conf0.respCtx == NULL && nc->respCtx != NULL) REACH("requested configuration received");
 	if (res == KSI_OK && g_ad.oldconf_free == 1) REACH("configuration renewed");
 	if (res == KSI_OK && g_ad_it0.resp.handled && !g_ad_it0.resp.delivered && g_ad_it0.resp.vwr_calls == 0) REACH("reply with unknown id ignored");
+#if AD_MAXQ >= 2
 	if (res == KSI_OK && g_ad.get_calls == 2 && g_ad.n_out == 0) REACH("transport reports more but hands out nothing");
+#endif
 }
+#endif
